@@ -106,4 +106,21 @@ theorem gen_E2E_biofilter_whole {k run gc motifs c} (h : BfOk k run gc motifs c)
   · rw [tie_LocalBioFilter_valid vfuel c.k run gc motifs c s false h.cfg h.den h.chars, h1]
   · rw [tie_LocalBioFilter_valid vfuel c.k run gc motifs c _ false h.cfg h.den h.chars, h2]
 
+/-- C11 on generated code with the built-in filter: the mask the generated `find_vertices` returns for the (generated)
+`LocalBioFilter` object marks index `i` exactly when the documented predicate of the configuration — with the thresholds
+the code's float expressions produce — holds for the last window of the `i`-th k-mer; the call raises `ValueError` (and
+nothing else) exactly when no k-mer is accepted. -/
+theorem gen_C11_biofilter_mask {k run gc motifs c} (h : BfOk k run gc motifs c) (bfuel ffuel : Nat) (vb : Bool)
+    (hff : 2 * k + 2 ≤ ffuel) :
+    (∀ r, Gen.find_vertices ffuel (.int (k : Int)) (genTable bfuel k run gc motifs) (.bool vb) = .ok r →
+        ∃ m : Mask, r = maskPV false m ∧ m.size = 4 ^ k ∧
+          ∀ i, i < 4 ^ k → m.getD i false = c.valid (kmerOf k i) true) ∧
+    (∀ e, Gen.find_vertices ffuel (.int (k : Int)) (genTable bfuel k run gc motifs) (.bool vb) = .error e →
+        e = .valueError ∧ ∀ i, i < 4 ^ k → c.valid (kmerOf k i) true = false) := by
+  rw [genTable_eq h]
+  obtain ⟨h1, h2⟩ := gen_C11_mask k (fun x => c.valid x true) ffuel vb hff
+  refine ⟨fun r hr => ?_, h2⟩
+  obtain ⟨m, hm, hs, hc, -, -⟩ := h1 r hr
+  exact ⟨m, hm, hs, hc⟩
+
 end Dsw.Tie
